@@ -1076,8 +1076,26 @@ func (e *Engine) eventFree(fn *ssa.Function) bool {
 		}
 		for _, in := range b.Instrs {
 			switch x := in.(type) {
-			case *ssa.Go, *ssa.Defer, *ssa.Panic, *ssa.MapUpdate, *ssa.Send, *ssa.Select, *ssa.MakeClosure:
+			case *ssa.Go, *ssa.Defer, *ssa.Panic, *ssa.MapUpdate, *ssa.Send, *ssa.Select, *ssa.MakeClosure, *ssa.Lookup, *ssa.Range:
 				free = false
+			case *ssa.FieldAddr, *ssa.IndexAddr:
+				// reading or writing memory that is not a local of this call is observable
+				// (guarded fields, registration flags)
+				var a ssa.Value = x.(ssa.Value)
+				for {
+					if ia, ok := a.(*ssa.IndexAddr); ok {
+						a = ia.X
+						continue
+					}
+					if fa, ok := a.(*ssa.FieldAddr); ok {
+						a = fa.X
+						continue
+					}
+					break
+				}
+				if _, local := a.(*ssa.Alloc); !local {
+					free = false
+				}
 			case *ssa.Store:
 				a := x.Addr
 				for {
